@@ -121,28 +121,37 @@ structure Answer where
   script : Script
 
 /-- smallest capacity (first in the given ascending list) for which the search finds a script
-whose stream the reference decoder maps back to the input -/
-def search (input : List Nat) (modes : Nat) (caps : List Nat) : Option Answer := Id.run do
-  let arr := input.toArray
-  let maxRun := if input.length ≤ 48 then 48 else 0
+whose stream the reference decoder maps back to the input.  `hdr` = 0: no header codeword; 1: FNC1
+in first position; 5 / 6: Macro 05 / 06 codeword (then `body` is the message without the envelope
+and `full` the whole message; otherwise `body = full`).  The header codeword takes one codeword of
+the symbol; every candidate is re-checked with the reference decoder on the complete stream. -/
+def searchH (hdr : Nat) (full body : List Nat) (modes : Nat) (caps : List Nat) : Option Answer := Id.run do
+  let arr := body.toArray
+  let hl := if hdr = 0 then 0 else 1
+  let maxRun := if body.length ≤ 48 then 48 else 0
   let best := table arr modes maxRun
   let mut k := 0
-  for cap in caps do
-    -- whole-message candidates for long inputs (pure Base256 with its two length forms)
-    let cands : List Script :=
-      (match fit arr modes best cap maxRun with | some s => [s] | none => []) ++
-      (if en modes 32 ∧ input.length ≥ 1 ∧ input.length ≤ 1555 then
-        (if 2 + input.length = cap then [{ header := 0, items := [.base256 input true], pad := 0 }] else []) ++
-        (let c := 1 + input.length + (if input.length ≤ 249 then 1 else 2)
-         if c ≤ cap then [{ header := 0, items := [.base256 input false], pad := cap - c }] else [])
-       else [])
-    for s in cands do
-      let cw := build s
-      if cw.length = cap then
-        match Stream.decode cw with
-        | .ok d => if d.bytes == input then return some { capIndex := k, script := s }
-        | .error _ => pure ()
+  for capT in caps do
+    if capT ≥ hl then
+      let cap := capT - hl
+      -- whole-message candidates for long inputs (pure Base256 with its two length forms)
+      let cands : List Script :=
+        (match fit arr modes best cap maxRun with | some s => [s] | none => []) ++
+        (if en modes 32 ∧ body.length ≥ 1 ∧ body.length ≤ 1555 then
+          (if 2 + body.length = cap then [{ header := 0, items := [.base256 body true], pad := 0 }] else []) ++
+          (let c := 1 + body.length + (if body.length ≤ 249 then 1 else 2)
+           if c ≤ cap then [{ header := 0, items := [.base256 body false], pad := cap - c }] else [])
+         else [])
+      for s0 in cands do
+        let s : Script := { s0 with header := hdr }
+        let cw := build s
+        if cw.length = capT then
+          match Stream.decode cw with
+          | .ok d => if d.bytes == full ∧ d.fnc1 == (hdr == 1) then return some { capIndex := k, script := s }
+          | .error _ => pure ()
     k := k + 1
   return none
+
+def search (input : List Nat) (modes : Nat) (caps : List Nat) : Option Answer := searchH 0 input input modes caps
 
 end DM.Spec.Opt
